@@ -240,6 +240,8 @@ func absSchemaToOpenAPI(a any) map[string]any {
 		switch f {
 		case "type", "pattern", "format":
 			out[f] = x
+		case "ref": // a reference to a shared component (harness/c01.go shareAbs)
+			out["$ref"] = "#/components/schemas/" + x.(string)
 		case "types":
 			out["type"] = asSlice(x)
 		case "nullable", "uniqueItems", "exclusiveMinimum", "exclusiveMaximum", "readOnly", "writeOnly":
@@ -306,6 +308,8 @@ func openAPIToAbsSchema(o map[string]any) (any, bool) {
 		switch f {
 		case "type", "pattern", "nullable", "uniqueItems", "exclusiveMinimum", "exclusiveMaximum", "readOnly", "writeOnly", "format":
 			out[f] = x
+		case "$ref":
+			out["ref"] = strings.TrimPrefix(x.(string), "#/components/schemas/")
 		case "discriminator":
 			if dm, ok := x.(map[string]any); ok {
 				if _, hasMap := dm["mapping"]; hasMap {
